@@ -613,3 +613,193 @@ fn verif_c04_mac_faults() {
     rec.sample(json!({"fp31_faults": fp31_faults, "fp31_undetected": fp31_undetected}));
     rec.finish();
 }
+
+// ---------------------------------------------------------------------------------------------
+// adaptive adversary: correlated errors built from a MAC key that was opened earlier
+// ---------------------------------------------------------------------------------------------
+//
+// Validation of a batch opens that batch's MAC key r to every helper. A helper that later adds eps to its [a*b]
+// message and r_old * eps to its [r*a*b] message of a record in ANOTHER batch is caught because that batch has a key
+// of its own (u - r*w = alpha * eps * (r_old - r) != 0 except with probability 1/|F|). Single-message errors
+// (verif_c04_mac_faults) cannot tell whether keys are per batch.
+
+/// Returns (verdicts of the three helpers, reconstructed product of `target` from the two honest helpers' shares if
+/// both accepted, expected product, number of messages the adversary changed).
+async fn opened_key_attack(seed: u64, attacker: usize, batch: usize, batches: usize, target: usize, key_of: usize, eps: u64)
+    -> (Vec<Result<(), String>>, Option<u128>, u128, usize) {
+    use std::collections::HashMap;
+    use crate::{
+        ff::{Fp32BitPrime, Serializable, U128Conversions},
+        helpers::{HelperIdentity, in_memory_config::InspectContext},
+        secret_sharing::replicated::malicious::ThisCodeIsAuthorizedToDowngradeFromMalicious,
+    };
+    type F = Fp32BitPrime;
+    const SZ: usize = 4;
+    let count = batch * batches;
+    let key_shares: Arc<Mutex<Vec<F>>> = Arc::new(Mutex::new(Vec::new()));
+    let offsets: Arc<Mutex<HashMap<String, usize>>> = Arc::default();
+    let changed = Arc::new(Mutex::new(0usize));
+    let mut cfg = TestWorldConfig::default();
+    cfg.seed = seed;
+    cfg.timeout = None;
+    cfg.gateway_config.active = batch.try_into().unwrap();
+    {
+        let (key_shares, offsets, changed) = (Arc::clone(&key_shares), Arc::clone(&offsets), Arc::clone(&changed));
+        cfg.stream_interceptor = Arc::new(move |ctx: &InspectContext, data: &mut Vec<u8>| {
+            let InspectContext::MpcMessage { source, dest, gate, .. } = ctx else { return };
+            let ids = [HelperIdentity::ONE, HelperIdentity::TWO, HelperIdentity::THREE];
+            let src = ids.iter().position(|i| i == source).unwrap();
+            let dst = ids.iter().position(|i| i == dest).unwrap();
+            // multiplication messages travel to the left neighbour
+            if src != attacker || dst != (attacker + 2) % 3 {
+                return;
+            }
+            let g = gate.as_ref().to_string();
+            let on_rab = g.ends_with("mul/duplicate_multiply");
+            let on_ab = g.ends_with("/mul");
+            if !on_rab && !on_ab {
+                return;
+            }
+            let mut offs = offsets.lock().unwrap();
+            let start = offs.entry(g).or_insert(0);
+            let (lo, hi) = (target * SZ, (target + 1) * SZ);
+            if *start <= lo && hi <= *start + data.len() {
+                let sl = &mut data[lo - *start..hi - *start];
+                let delta = if on_rab {
+                    let ks = key_shares.lock().unwrap();
+                    ks.iter().fold(F::ZERO, |a, s| a + *s) * F::truncate_from(u128::from(eps))
+                } else {
+                    F::truncate_from(u128::from(eps))
+                };
+                let v = F::deserialize_from_slice(sl) + delta;
+                v.serialize_to_slice(sl);
+                *changed.lock().unwrap() += 1;
+            }
+            *start += data.len();
+        });
+    }
+    let world = TestWorld::new_with(&cfg);
+    let mut r = VRng::new(seed ^ 0xc04e, 9);
+    let plain: Vec<(F, F)> = (0..count).map(|_| (F::truncate_from(u128::from(r.next() % 4_000_000_000)), F::truncate_from(u128::from(r.next() % 4_000_000_000)))).collect();
+    let expected = (plain[target].0 * plain[target].1).as_u128();
+    let mut inputs: [Vec<(Replicated<F>, Replicated<F>)>; 3] = Default::default();
+    for (a, b) in &plain {
+        let (sa, sb) = (share_field(*a, &mut r), share_field(*b, &mut r));
+        for h in 0..3 {
+            inputs[h].push((sa[h].clone(), sb[h].clone()));
+        }
+    }
+    let ctxs = world.malicious_contexts();
+    let futs = ctxs.into_iter().zip(inputs).map(|(ctx, inp)| {
+        let key_shares = Arc::clone(&key_shares);
+        async move {
+            catch_fut(async move {
+                let ctx = ctx.set_total_records(TotalRecords::specified(count).unwrap());
+                let v = ctx.validator::<F>();
+                let m_ctx = v.context();
+                // this helper's share of the key of batch `key_of`: it is opened on the wire when that batch is validated;
+                // the adversary may use the sum from then on (records are processed batch by batch below)
+                key_shares.lock().unwrap().push(m_ctx.r(RecordId::from(key_of * batch)).left());
+                let mut shares_of_target = None;
+                for b in 0..batches {
+                    let range = b * batch..(b + 1) * batch;
+                    let out = m_ctx
+                        .try_join(range.clone().map(|i| {
+                            let ctx = m_ctx.clone();
+                            let (a, bb) = inp[i].clone();
+                            async move {
+                                let rid = RecordId::from(i);
+                                let (am, bm) = (a, bb).upgrade(ctx.narrow("upgrade"), rid).await?;
+                                let ab = am.multiply(&bm, ctx.narrow("mul"), rid).await?;
+                                ctx.validate_record(rid).await?;
+                                Ok::<_, Error>(ab.x().access_without_downgrade().clone())
+                            }
+                        }))
+                        .await?;
+                    if range.contains(&target) {
+                        shares_of_target = Some(out[target - range.start].clone());
+                    }
+                }
+                Ok::<_, Error>(shares_of_target.unwrap())
+            })
+            .await
+            .map(|r| r.map_err(|e| format!("{e:?}")))
+        }
+    });
+    let res: Vec<Result<Result<Replicated<F>, String>, String>> = join_all(futs).await;
+    let flat: Vec<Result<Replicated<F>, String>> = res.into_iter().map(|r| r.and_then(|x| x)).collect();
+    let h1 = (attacker + 1) % 3;
+    let h2 = (attacker + 2) % 3;
+    // the two honest helpers together hold all three additive shares
+    let rec = match (&flat[h1], &flat[h2]) {
+        (Ok(s1), Ok(s2)) => Some((s1.left() + s1.right() + s2.right()).as_u128()),
+        _ => None,
+    };
+    let n = *changed.lock().unwrap();
+    (flat.into_iter().map(|r| r.map(|_| ())).collect(), rec, expected, n)
+}
+
+#[test]
+fn verif_c04_opened_key_attack() {
+    let env = vlib::env();
+    let mut rec = Recorder::new("C04", "verif_c04_opened_key_attack");
+    let cases = env.pick(96, 960);
+    for idx in 0..cases {
+        if !env.mine(idx) {
+            continue;
+        }
+        let mut r = VRng::new(env.seed ^ 0xc04b, idx as u64);
+        let attacker = idx % 3;
+        let batch = [2usize, 4, 16][(idx / 3) % 3];
+        let batches = 2 + (idx / 9) % 2;
+        // key of one batch, target in another one (every ordered pair of batches is reachable; only a key that is
+        // already open when the target's messages leave is a real attack, i.e. key_of < target batch)
+        let key_of = r.below(batches as u64 - 1) as usize;
+        let tb = key_of + 1 + r.below((batches - key_of - 1) as u64) as usize;
+        let target = tb * batch + r.below(batch as u64) as usize;
+        let eps = 1 + r.below(1 << 20);
+        let honest_control = idx % 8 == 7;
+        let seed = env.seed.wrapping_mul(4099) ^ idx as u64;
+        let out = vlib::run_paused(Duration::from_secs(120), opened_key_attack(seed, if honest_control { 9 } else { attacker }, batch, batches, target, key_of, eps));
+        rec.eval();
+        let witness = json!({"case": idx, "attacker": attacker, "records_per_batch": batch, "batches": batches, "key_of_batch": key_of, "target_record": target, "eps": eps});
+        match out {
+            Paused::Quiescent => rec.violation("MAC-protected multiplications did not complete", json!({"kind": "no_completion", "attack": "opened_key"}), witness),
+            Paused::Done((verdicts, reconstructed, expected, changed)) => {
+                if honest_control {
+                    if verdicts.iter().all(Result::is_ok) && reconstructed == Some(expected) {
+                        rec.count("opened_key_honest_controls_accepted");
+                    } else {
+                        rec.violation("an honest multi-batch execution did not validate", json!({"kind": "honest_rejected", "attack": "opened_key"}),
+                                      json!({"case": idx, "verdicts": format!("{verdicts:?}"), "reconstructed": reconstructed.map(|v| v.to_string()), "expected": expected.to_string()}));
+                    }
+                    continue;
+                }
+                if changed != 2 {
+                    rec.count("opened_key_attack_not_applied");
+                    continue;
+                }
+                let h1 = (attacker + 1) % 3;
+                let h2 = (attacker + 2) % 3;
+                if verdicts[h1].is_err() || verdicts[h2].is_err() {
+                    rec.count("opened_key_attack_detected");
+                    rec.distinct(&(attacker, batch, batches, key_of, target));
+                    rec.seen("opened_key_batch_pairs", format!("{batch}x{batches}:{key_of}->{tb}"));
+                } else if reconstructed != Some(expected) {
+                    rec.violation(
+                        "correlated errors built from the opened MAC key of another batch were accepted: the honest helpers hold a wrong product",
+                        json!({"kind": "tamper_accepted", "attack": "opened_key_of_other_batch"}),
+                        json!({"case": idx, "attacker": attacker, "records_per_batch": batch, "batches": batches, "key_of_batch": key_of, "target_record": target, "eps": eps,
+                               "reconstructed": reconstructed.map(|v| v.to_string()), "expected": expected.to_string()}),
+                    );
+                } else {
+                    rec.count("opened_key_attack_without_effect");
+                }
+            }
+        }
+        if rec.want_sample() && idx % 17 == 2 {
+            rec.sample(json!({"attack": "opened key of another batch", "case": idx, "attacker": attacker, "records_per_batch": batch, "batches": batches}));
+        }
+    }
+    rec.finish();
+}
